@@ -1007,12 +1007,14 @@ func parseObjectTypeDefinition(parser *Parser) (ast.Node, error) {
  */
 func parseImplementsInterfaces(parser *Parser) ([]*ast.Named, error) {
 	types := []*ast.Named{}
-	if parser.Token.Value == "implements" {
+	if peek(parser, lexer.NAME) && parser.Token.Value == "implements" {
 		if err := advance(parser); err != nil {
 			return nil, err
 		}
 		// optional leading ampersand
-		skip(parser, lexer.AMP)
+		if _, err := skip(parser, lexer.AMP); err != nil {
+			return nil, err
+		}
 		for {
 			ttype, err := parseNamed(parser)
 			if err != nil {
